@@ -122,6 +122,22 @@ CLAIMS = {
         technique="Lean 4 proof (case analysis over type tables + linear integer arithmetic) + "
                   "differential correspondence",
         ref="DESIGN.md §6 C11"),
+    "C07": dict(
+        text="Lean 4 theorems (arrays as functions, all extents): the three sequential pad-and-average stages "
+             "of AveragingDownscaler compute at every output voxel the block sum of the input completed with "
+             "the edge value or any outside value (odd and size-1 axes included), hence the exact mean; for "
+             "u8/u16/u32 the stored value is that mean rounded half to even and saturated, never a wrap, and "
+             "lies between min and max of the contributing values; the majority result is a label of the block "
+             "with maximal count, the smallest on ties (proof over the arg-max fold on the sorted distinct "
+             "labels); striding returns the block's first voxel. uint64 >= 2^53 / float32 go through float64 "
+             "(known finding F6 for uint64, tolerance for float32). Tie: real downscalers vs exact oracle "
+             "and the Lean model on odd/even/size-1 shapes, all factor triples, tie-heavy label patterns, "
+             "outside values incl. 0.",
+        note="Trusted: Lean kernel; standard axioms; hand-written model (tie = sampling, thorough adds all "
+             "shapes <= 4^3 x all factors); float64 exactness on values < 2^50 assumed (checked by the tie).",
+        technique="Lean 4 proof (sum/padding commutation, fold invariant on sorted list, rounding bounds) "
+                  "+ differential correspondence",
+        ref="DESIGN.md §6 C07"),
 }
 
 ALL = ["C%02d" % i for i in range(1, 21)]
